@@ -87,6 +87,38 @@ def emptiness_edge(test, operand):
     return None
 
 
+def like_to_like_rule(index, rep, rid, quals):
+    """A merge adds each field of the argument to the SAME field of the receiver: `self.F (+)= other.G`,
+    `self.F[k] += other.G[k]`, `self.F.update/extend(other.G)` all have F == G."""
+    n = 0
+    for q in quals:
+        f = index.function(q)
+        others = [p_ for p_ in f.params if p_ not in ("self", "cls")]
+        if not others:
+            continue
+        o = others[0]
+        for st in ast.walk(f.node):
+            tgt = val = None
+            if isinstance(st, ast.AugAssign):
+                tgt, val = st.target, st.value
+            elif isinstance(st, ast.Expr) and isinstance(st.value, ast.Call) and isinstance(st.value.func, ast.Attribute) and st.value.func.attr in ("update", "extend") and st.value.args:
+                tgt, val = st.value.func.value, st.value.args[0]
+            if tgt is None:
+                continue
+            base = tgt
+            while isinstance(base, ast.Subscript):
+                base = base.value
+            if not (isinstance(base, ast.Attribute) and norm(base.value) == "self"):
+                continue
+            src = [a for a in ast.walk(val) if isinstance(a, ast.Attribute) and norm(a.value) == o]
+            if len(src) != 1:
+                continue
+            n += 1
+            rep.check(src[0].attr == base.attr, rid, f.qualname, "self.%s merged with %s.%s" % (base.attr, o, src[0].attr), fn_where(f, st), "%s: self.%s takes %s.%s" % (f.name, base.attr, o, src[0].attr),
+                      "%s merges `%s.%s` into `self.%s` (`%s`): a merged collection then normalises its (weighted) counts by the wrong total, so split frequencies after update/extend/+ differ from those of the same trees added one at a time" % (f.qualname, o, src[0].attr, base.attr, norm_stmt(st)[:70]))
+    return n
+
+
 def per_file_offset_rule(index, rep, rid):
     """The burn-in (tree_offset) applies to EACH file.  Both multi-file readers - TreeArray.read_from_files and
     sumtrees' serial reader - must count trees within the current file: the counter compared with the offset is
@@ -166,6 +198,10 @@ def run(index, rep, tier):
                               "%s merges field %s written by %s" % (mfi.name, f, afi.name),
                               "%s accumulates into self.%s for every tree but %s neither merges nor compares that field: data of partitioned runs is silently lost"
                               % (afi.qualname, f, mfi.qualname))
+
+    # ---- R06.2 like to like
+    with rep.section("R06.2 like to like"):
+        rep.floor("R06.2", "field-to-field merges in SplitDistribution.update", 5, like_to_like_rule(index, rep, "R06.2", ["dendropy.datamodel.treecollectionmodel.SplitDistribution.update"]))
 
     # ---- R06.7
     with rep.section("R06.7"):
